@@ -272,7 +272,7 @@ def cases(tier):
     idx = 0
     # mappings whose keys are renamed (same-length and different-length renames, with a second pair competing in the
     # matcher): the shape in which key edits, value edits and whole-pair removals/insertions are all in play
-    keys = ('id', 'no', 'a') if q else ('id', 'no', 'a', 'idx')
+    keys = ('id', 'no', 'a')
     vals = (1, 'ab', ['a', 'b', 'c']) if q else (1, [], 'ab', ['a', 'b', 'c'], None)
     docs = []
     for combo in itertools.product((None,) + tuple(range(len(vals))), repeat=len(keys)):
